@@ -20,7 +20,7 @@ func init() {
 	register(&Driver{
 		ID:        "C17",
 		Technique: "exhaustive enumeration of a value x field-type x binding-path matrix (same-kind pairs), one reflect.StructOf holder and one real start per cell; oracle: prefix path = strict YAML decoding of the value into the field type, value / prop paths = their prefix twin, literal = as written",
-		Rule:      "values = integers {0,1,-1,2^31,2^53+1,MaxInt64}, floats {1.5,0.1,2.0,1e21}, booleans, 19 strings (plain, number-like, boolean-like, quoted, bracketed, map-like, JSON-like, empty, padded, with , = : }), lists (strings, ints, number-like strings), maps; field types {string,*string,int,int64,uint8,float64,bool,[]string,[]int,map[string]any,map[string]string,struct,*struct,any}; paths {prefix, value:\"${k}\", prop:\"k\", the same two with a default although the key is configured, literal in value}; only same-kind (value, type) pairs; non-trivial = value whose text form differs from its typed form (number-like / boolean-like / quoted / bracketed strings, big integers, floats, containers)",
+		Rule:      "values = integers {0,1,-1,2^31,2^53+1,MaxInt64}, floats {1.5,0.1,2.0,1e21}, booleans, 19 strings (plain, number-like, boolean-like, quoted, bracketed, map-like, JSON-like, empty, padded, with , = : }), lists (strings, ints, number-like strings), maps; field types {string,*string,int,int64,uint8,float64,bool,[]string,[]int,map[string]any,map[string]string,struct,*struct,any}; paths {prefix, value:\"${k}\", prop:\"k\", the same two with a default although the key is configured, literal in value}; only same-kind (value, type) pairs; non-trivial = value whose text form differs from its typed form (number-like / boolean-like / quoted / bracketed strings, big integers, floats, containers). Families added in later rounds (look-ups inside Init, retries after an abandoned attempt, user extension points at every Order, several containers, odd names / types / values) are listed per part in this file and described in MANIFEST.json (level_claimed.text) and DESIGN §7",
 		Assumptions: []string{
 			"cross-kind pairs (e.g. bool into string) are outside the property",
 			"for any / map[string]any targets numbers are compared by value (3 and 3.0 are the same result)",
